@@ -209,6 +209,11 @@ func (m *BaseUndoLogManager) FlushUndoLog(tranCtx *types.TransactionContext, con
 			afterImage = afterImages[i]
 		}
 
+		// a statement that touched no row leaves nothing to undo (no undo statement can be built from it)
+		if (beforeImage == nil || len(beforeImage.Rows) == 0) && (afterImage == nil || len(afterImage.Rows) == 0) {
+			continue
+		}
+
 		undoLog := undo.SQLUndoLog{
 			SQLType:     sqlType,
 			TableName:   tableName,
